@@ -237,6 +237,12 @@ impl WebSocketClient {
         take_notify_sender(&self.inner);
     }
 
+    /// Number of calls currently registered as awaiting a response.
+    #[cfg(feature = "verif-hooks")]
+    pub fn verif_pending_len(&self) -> usize {
+        lock_pending_map(&self.inner.pending).len()
+    }
+
     fn next_request_id(&self) -> u64 {
         self.inner.next_id.fetch_add(1, Ordering::Relaxed)
     }
@@ -572,6 +578,8 @@ impl WebSocketClient {
 
         let (sender, receiver) = oneshot::channel();
         let mut pending_guard = PendingRequestGuard::register(&self.inner, id, sender)?;
+        #[cfg(feature = "verif-hooks")]
+        crate::verif_hooks::probe("ws_client.registered", id);
 
         self.write_request(&msg).await?;
 
@@ -579,6 +587,14 @@ impl WebSocketClient {
             Some(duration) => match timeout(duration, receiver).await {
                 Ok(Ok(value)) => value,
                 Ok(Err(_)) => return Err(response_channel_closed_error(id)),
+                #[cfg(feature = "verif-hooks")]
+                Err(_) if {
+                    crate::verif_hooks::probe("ws_client.timeout.before_remove", id);
+                    false
+                } =>
+                {
+                    unreachable!()
+                }
                 Err(_) => return Err(request_timeout_error(id, duration)),
             },
             None => match receiver.await {
@@ -600,6 +616,8 @@ impl WebSocketClient {
         // learns why.
         self.inner.limits.check_outbound(bytes.len())?;
         let mut writer = self.inner.writer.lock().await;
+        #[cfg(feature = "verif-hooks")]
+        crate::verif_hooks::probe("ws_client.write.locked", msg.header.id);
         writer
             .send(WsMessage::Binary(bytes))
             .await
@@ -739,6 +757,8 @@ fn spawn_response_loop(mut reader: WsReader, inner: std::sync::Weak<WebSocketCli
                 }
             };
 
+            #[cfg(feature = "verif-hooks")]
+            crate::verif_hooks::probe("ws_client.reader.received", response.header.id);
             let dispatch = {
                 let Some(inner_ref) = inner.upgrade() else {
                     break;
@@ -773,6 +793,8 @@ fn spawn_response_loop(mut reader: WsReader, inner: std::sync::Weak<WebSocketCli
 
             match dispatch {
                 PendingDispatch::Matched { sender, response } => {
+                    #[cfg(feature = "verif-hooks")]
+                    crate::verif_hooks::probe("ws_client.reader.before_deliver", response.header.id);
                     let _ = sender.send(Ok(response));
                 }
                 PendingDispatch::Notify { sender, response } => {
